@@ -8,7 +8,9 @@ open Gedcom Gedcom.Match
     `match <L> <R> <prefer> <minW> <T> <F> <perm>`: persons `id:hexptr:hexuid,hexuid…|_` joined by
     `;` (`_` = empty list); score tables `l,r,num/den;…` (`_` = empty, missing entry = 0);
     `perm` selects the arrival order handed to `winners` (0 = the sequential one).
-    Response: sorted `l-r` pairs (`_` = absent side), then `ties=` (two uncertain jobs at or above
+    `match2` = the second `Compare` of an options value that already ran the same comparison once
+    (stale `sentA/sentB`).  Response: sorted `l-r` pairs (`_` = absent side) — one answer per
+    resolution of the ambiguous unique-identifier choices, separated by ` | ` —, then `ties=` (two uncertain jobs at or above
     the threshold share a score), `ok=` (IdsOK ∧ JobsOK), `amb=` (some left individual has more
     than one unique-identifier candidate). -/
 
@@ -75,6 +77,22 @@ def showRes (rs : List Res) : String :=
 
 def tiesAbove (minW : Rat) (js : List Job) : Bool := !decide (NoScoreTies minW js)
 
+/-- distinct candidates of `a` as persons -/
+def candPersons (R : List Person) (a : Person) : List Person :=
+  (uniqueCands R a).foldl (fun acc b => if acc.any (fun c => c.id == b.id) then acc else acc ++ [b]) []
+
+/-- every resolution of the ambiguous choices (left individuals with more than one candidate), at
+    most 64 of them -/
+def resolutions (L R : List Person) : List (List (Nat × Person)) :=
+  let amb := L.filter fun a => (candPersons R a).length > 1
+  let all := amb.foldl (fun acc a => acc.flatMap fun asg => (candPersons R a).map fun b => asg ++ [(a.id, b)]) [[]]
+  all.take 64
+
+def choiceOf (R : List Person) (asg : List (Nat × Person)) (a : Person) : Option Person :=
+  match asg.find? (fun e => e.1 == a.id) with
+  | some e => some e.2
+  | none => uniqueTarget R a
+
 end Driver.MatH
 
 namespace Driver
@@ -82,16 +100,22 @@ open Driver.MatH Gedcom Gedcom.Match
 
 def handleMatch (cmd : String) (rest : List String) : Option String :=
   match cmd with
-  | "match" =>
+  | "match" | "match2" =>
     match rest with
     | [l, r, prefer, minW, t, f, k] => some <|
       match parsePersons l, parsePersons r, mParseRat prefer, mParseRat minW, parseScores t, parseScores f, k.toNat? with
       | some L, some R, some prefer, some minW, some T, some F, some k =>
-        let js := jobs L R (lookupScore T) (lookupScore F) prefer
-        let res := winners L R minW (permute k js)
+        let sT := lookupScore T
+        let sF := lookupScore F
+        let js := jobs L R sT sF prefer
+        -- one answer per resolution of the ambiguous unique-identifier choices
+        let answers := (resolutions L R).map fun asg =>
+          let ch := choiceOf R asg
+          let s0 : Sent := if cmd == "match2" then sentAfter ch ⟨[], []⟩ L R sT prefer else ⟨[], []⟩
+          showRes (winners L R minW (permute k (jobsFrom ch s0 L R sT sF prefer)))
         let ok := decide (IdsOK L R) && decide (JobsOK L R js)
         let amb := L.any fun a => (uniqueCandidates R a).length > 1
-        s!"{showRes res} ties={b2s (tiesAbove minW js)} ok={b2s ok} amb={b2s amb}"
+        s!"{" | ".intercalate answers} ties={b2s (tiesAbove minW js)} ok={b2s ok} amb={b2s amb}"
       | _, _, _, _, _, _, _ => "bad-op"
     | _ => some "bad-op"
   | _ => none
